@@ -43,6 +43,16 @@ class RestConverter(object):
         return '|'.join(value)
 
 
+class SafeRestConverter(RestConverter):
+    """A rest-of-path converter that may VETO: it refuses remainders that contain a 'zz' or '..' segment (converters
+    may veto a match, whatever they consume)."""
+
+    def convert(self, value):
+        if 'zz' in value or '..' in value:
+            return None
+        return '|'.join(value)
+
+
 class Res(object):
     def __init__(self, ident):
         self.ident = ident
@@ -119,6 +129,7 @@ REF_CONVERTERS = {
     ('ab', None): lambda v: v.upper() if v in ('a', 'b', 'ab') else None,
     ('path', None): 'PATH',
     ('rest', None): 'REST',
+    ('saferest', None): 'SAFEREST',
 }
 
 
@@ -143,7 +154,7 @@ class RNode(object):
                 pos = m.end()
             parts.append(re.escape(raw[pos:]))
             self.regex = re.compile('^' + ''.join(parts) + '$')
-        self.is_path = self.kind == 2 and self.fields[0][1] in ('path', 'rest')
+        self.is_path = self.kind == 2 and self.fields[0][1] in ('path', 'rest', 'saferest')
 
 
 class RefRouter(object):
@@ -182,6 +193,12 @@ class RefRouter(object):
                 if conv == 'PATH':
                     return {name: '/'.join(path[level:])}
                 if conv == 'REST':
+                    return {name: '|'.join(path[level:])}
+                if conv == 'SAFEREST':
+                    if 'zz' in path[level:] or '..' in path[level:]:
+                        if stats is not None:
+                            stats['veto'] = True
+                        return None
                     return {name: '|'.join(path[level:])}
                 v = conv(seg)
                 if v is None:
@@ -256,7 +273,7 @@ def _seg_templates():
 
 
 VAR_SEGS = _seg_templates()
-PATH_SEGS = ['{f:path}', '{k:path}', '{g:rest}']
+PATH_SEGS = ['{f:path}', '{k:path}', '{g:rest}', '{h:saferest}']
 BAD_SEGS = ['{f:nope}', '{class}', 'a b', '{f:path}x', 'x{g:path}', '{f:int(0)}', '{f:}', '{9x}', '{f}{f}', '{f} {g}',
             # field names that are almost identifiers: trailing / embedded line breaks, blanks, quotes, a backslash
             '{f\n}', '{g\n:int}', 'x{h\n}', '{f\r}', '{f\t}', '{ f}', "{f'}", '{f"}', '{f\\}', '{f\n}-{g}', '{\nf}']
@@ -283,7 +300,7 @@ def _fillers(cname, arg):
         return [UUID_OK, 'x']
     if cname == 'ab':
         return ['a', 'ab', 'c']
-    if cname in ('path', 'rest'):
+    if cname in ('path', 'rest', 'saferest'):
         return ['a']
     return ['a']
 
@@ -356,6 +373,7 @@ def new_router():
     r = CompiledRouter()
     r.options.converters['ab'] = ABConverter
     r.options.converters['rest'] = RestConverter
+    r.options.converters['saferest'] = SafeRestConverter
     return r
 
 
@@ -561,11 +579,11 @@ class Histories(Suite):
 
 POOL = ['/a', '/{f}', '/a/{g}', '/a/b', '/{f}/b', '/{f:int}/b', '/{f}-{g}', '/a/{g:path}', '/{f:ab}/{h}', '/x{f}/b',
         '/{f:int}x{g}', "/it's/{h}", '/a\\b/{h}', '/{f}/{k:path}/x', '/a/{h}/zz', '/{f}/b/7', '/b/{g:rest}',
-        '/{g:float(max=100,finite=False)}/b', '/{f:int(min=0)}/b', '/{f:int}-{g:int}/{h:int}']
+        '/{g:float(max=100,finite=False)}/b', '/{f:int(min=0)}/b', '/{f:int}-{g:int}/{h:int}', '/a/{h:saferest}']
 
 
 class PoolEnum(Suite):
-    """Exhaustive: every ordered selection of <= 2 (quick) / <= 3 (thorough) templates from a 20-template pool (incl.
+    """Exhaustive: every ordered selection of <= 2 (quick) / <= 3 (thorough) templates from a 21-template pool (incl.
     one unacceptable template and literals with quote / backslash) x both compile flags on the last add, all
     representative paths."""
 
